@@ -345,17 +345,16 @@ def obligations(tier: str) -> List[dict]:
         for c0 in range(len(E_ALPHA)):
             add('h_evaluate', 3, 400, len=3, c0=c0)
     else:
-        for c0 in range(len(Q_ALPHA)):
-            add('h_quote', 3, 1500, len=3, c0=c0)
-            for c1 in range(0, len(Q_ALPHA), 4):
-                add('h_quote', 4, 3000, len=4, c0=c0, c1=c1)
         add('h_quote', 2, 600, ['needs-escape'])
-        add('h_evaluate', 3, 3000, ['int', 'float', 'constant-error'])
+        for c0 in range(len(Q_ALPHA)):
+            add('h_quote', 3, 900, len=3, c0=c0)
+            for c1 in range(0, len(Q_ALPHA), 5):
+                add('h_quote', 4, 1800, len=4, c0=c0, c1=c1)
+        add('h_evaluate', 2, 600, ['int'])
         for c0 in range(len(E_ALPHA)):
-            for c1 in range(0, len(E_ALPHA), 2):
-                add('h_evaluate', 4, 3000, len=4, c0=c0, c1=c1)
-                if c1 + 1 < len(E_ALPHA):
-                    add('h_evaluate', 4, 3000, len=4, c0=c0, c1=c1 + 1)
+            add('h_evaluate', 3, 900, len=3, c0=c0)
+            for c1 in (0, 3, 5, 6, 8, 14):
+                add('h_evaluate', 4, 1800, len=4, c0=c0, c1=c1)
     return obs
 
 
